@@ -5,6 +5,7 @@ import (
 	"fmt"
 	"os"
 	"os/exec"
+	"path/filepath"
 	"strconv"
 	"strings"
 
@@ -24,6 +25,7 @@ import (
 // extension predicate answer exactly as in the pristine state; (2) Lookup of
 // every extension name and alias returns the registered node with the right
 // parent; (3) results obtained before the last Extend are unaffected by it;
+// the reader and file entry points agree with Detect in every state;
 // (4) thorough: histories replayed in a fresh process through the public API
 // only must give the same answers.
 func init() {
@@ -70,6 +72,39 @@ func opToInt(o extOp) int {
 }
 
 var c14Cur *treeModel
+
+var c14FileDir string
+var c14Files = map[int]string{}
+
+// c14ProbeFile returns the path of a file holding probe k (written once per
+// worker into a private temporary directory, removed by c14Cleanup).
+func c14ProbeFile(k int, p []byte) string {
+	if path, ok := c14Files[k]; ok {
+		return path
+	}
+	if c14FileDir == "" {
+		d, err := os.MkdirTemp("", "verif-c14-")
+		if err != nil {
+			return ""
+		}
+		c14FileDir = d
+	}
+	path := filepath.Join(c14FileDir, fmt.Sprintf("probe-%d", k))
+	if os.WriteFile(path, p, 0o600) != nil {
+		path = ""
+	}
+	c14Files[k] = path
+	return path
+}
+
+func c14Cleanup() {
+	if c14FileDir != "" {
+		os.RemoveAll(c14FileDir)
+		c14FileDir = ""
+		c14Files = map[int]string{}
+	}
+}
+
 
 // c14State builds the state for a history and checks everything that is
 // checked in a state; returns the first failure.
@@ -129,6 +164,24 @@ func c14Check(c *core.Ctx, hist []extOp, probes [][]byte, count func(nontrivial 
 			if count != nil {
 				count(accepted)
 			}
+			// the other entry points perform the same walk over the same tree: the
+			// reader (every probe and limit) and the file entry (every probe once)
+			// classify exactly as Detect does in this state
+			want := chainStr(detectNoTrace(t, p, l))
+			rm, rerr := mimetype.DetectReader(bytes.NewReader(p))
+			t.trace = t.trace[:0]
+			if got := chainStr(rm); rerr != nil || got != want {
+				return false, "C14/reader-entry-disagrees", fmt.Sprintf("history [%s]: input %s limit %d: DetectReader gives %s (err %v), Detect gives %s", t.hist, quoteShort(p), l, got, rerr, want)
+			}
+			if l == c14Limits[1] {
+				if path := c14ProbeFile(i/len(c14Limits), p); path != "" {
+					fm, ferr := mimetype.DetectFile(path)
+					t.trace = t.trace[:0]
+					if got := chainStr(fm); ferr != nil || got != want {
+						return false, "C14/file-entry-disagrees", fmt.Sprintf("history [%s]: input %s limit %d: DetectFile gives %s (err %v), Detect gives %s", t.hist, quoteShort(p), l, got, ferr, want)
+					}
+				}
+			}
 			if !accepted {
 				if got := chainStr(detectNoTrace(t, p, l)); got != pristine[i] {
 					return false, "C14/unrelated-input-reclassified", fmt.Sprintf("history [%s]: input %s limit %d is rejected by every extension detector, yet it is now %s (before the calls: %s)", t.hist, quoteShort(p), l, got, pristine[i])
@@ -186,8 +239,14 @@ func c14Eval(cs *core.Case) (bool, string, string) {
 	for _, v := range cs.Ints {
 		hist = append(hist, opFromInt(v))
 	}
-	return c14Check(c14ctx, hist, c14ProbeSet(c14ctx), nil)
+	ok, sig, msg := c14Check(c14ctx, hist, c14ProbeSet(c14ctx), nil)
+	if !c14InRun {
+		c14Cleanup() // replay: nothing is left behind
+	}
+	return ok, sig, msg
 }
+
+var c14InRun bool
 
 var c14ctx *core.Ctx
 
@@ -293,6 +352,8 @@ func c14Setup(c *core.Ctx) {
 }
 
 func c14Run(c *core.Ctx) {
+	c14InRun = true
+	defer c14Cleanup()
 	probes := c14ProbeSet(c)
 	depth := 2
 	if c.Thorough() {
